@@ -1,1 +1,138 @@
-//! Reference model of the protobuf wire format (filled in with C05/C06).
+//! Reference model of the protobuf wire format, written from the encoding guide
+//! (protobuf.dev/programming-guides/encoding), not from pilota. Allocation-free.
+#![allow(unused)]
+pub use crate::ref_thrift::{varint, varint_decode, varint_len, Out};
+
+pub const WT_VARINT: u8 = 0;
+pub const WT_I64: u8 = 1;
+pub const WT_LEN: u8 = 2;
+pub const WT_SGROUP: u8 = 3;
+pub const WT_EGROUP: u8 = 4;
+pub const WT_I32: u8 = 5;
+
+/// key = (field_number << 3) | wire_type, as a varint
+pub fn key<const N: usize>(o: &mut Out<N>, tag: u32, wt: u8) {
+    varint(o, ((tag as u64) << 3) | wt as u64)
+}
+pub fn key_len(tag: u32) -> usize {
+    varint_len((tag as u64) << 3)
+}
+/// sintN: ZigZag, (n << 1) ^ (n >> N-1)
+pub fn zigzag32(n: i32) -> u64 {
+    (((n as u32) << 1) ^ ((n >> 31) as u32)) as u64
+}
+pub fn zigzag64(n: i64) -> u64 {
+    ((n as u64) << 1) ^ ((n >> 63) as u64)
+}
+pub fn unzigzag32(u: u32) -> i32 {
+    ((u >> 1) as i32) ^ -((u & 1) as i32)
+}
+pub fn unzigzag64(u: u64) -> i64 {
+    ((u >> 1) as i64) ^ -((u & 1) as i64)
+}
+/// int32/int64/enum: two's complement sign-extended to 64 bits, as a varint
+pub fn int32_u64(n: i32) -> u64 {
+    n as i64 as u64
+}
+pub fn fixed32<const N: usize>(o: &mut Out<N>, u: u32) {
+    o.put(u as u8);
+    o.put((u >> 8) as u8);
+    o.put((u >> 16) as u8);
+    o.put((u >> 24) as u8);
+}
+pub fn fixed64<const N: usize>(o: &mut Out<N>, u: u64) {
+    fixed32(o, u as u32);
+    fixed32(o, (u >> 32) as u32);
+}
+pub fn len_delim<const N: usize>(o: &mut Out<N>, tag: u32, payload: &[u8]) {
+    key(o, tag, WT_LEN);
+    varint(o, payload.len() as u64);
+    o.put_all(payload);
+}
+
+/// Reference reader over a byte slice.
+pub struct Rd<'a> {
+    pub s: &'a [u8],
+    pub pos: usize,
+}
+impl<'a> Rd<'a> {
+    pub fn new(s: &'a [u8]) -> Self {
+        Rd { s, pos: 0 }
+    }
+    pub fn done(&self) -> bool {
+        self.pos >= self.s.len()
+    }
+    pub fn varint(&mut self) -> Option<u64> {
+        let (v, n) = varint_decode(&self.s[self.pos..], 10)?;
+        self.pos += n;
+        Some(v)
+    }
+    /// (field number, wire type)
+    pub fn key(&mut self) -> Option<(u32, u8)> {
+        let k = self.varint()?;
+        if k > u32::MAX as u64 {
+            return None;
+        }
+        Some(((k >> 3) as u32, (k & 7) as u8))
+    }
+    pub fn fixed32(&mut self) -> Option<u32> {
+        if self.pos + 4 > self.s.len() {
+            return None;
+        }
+        let p = self.pos;
+        self.pos += 4;
+        Some(u32::from_le_bytes([self.s[p], self.s[p + 1], self.s[p + 2], self.s[p + 3]]))
+    }
+    pub fn fixed64(&mut self) -> Option<u64> {
+        let lo = self.fixed32()? as u64;
+        let hi = self.fixed32()? as u64;
+        Some(lo | (hi << 32))
+    }
+    /// length-delimited payload: returns (start, len)
+    pub fn len_delim(&mut self) -> Option<(usize, usize)> {
+        let l = self.varint()? as usize;
+        if self.pos + l > self.s.len() {
+            return None;
+        }
+        let st = self.pos;
+        self.pos += l;
+        Some((st, l))
+    }
+}
+
+#[cfg(test)]
+mod tests {
+    use super::*;
+    #[test]
+    fn guide_vectors() {
+        // encoding guide: field 1 varint 150 -> 08 96 01
+        let mut o = Out::<16>::new();
+        key(&mut o, 1, WT_VARINT);
+        varint(&mut o, 150);
+        assert_eq!(&o.b[..o.n], &[0x08, 0x96, 0x01]);
+        // field 2 string "testing" -> 12 07 74 65 73 74 69 6e 67
+        let mut o = Out::<16>::new();
+        len_delim(&mut o, 2, b"testing");
+        assert_eq!(&o.b[..o.n], &[0x12, 0x07, 0x74, 0x65, 0x73, 0x74, 0x69, 0x6e, 0x67]);
+        // zigzag table from the guide
+        assert_eq!(zigzag32(0), 0);
+        assert_eq!(zigzag32(-1), 1);
+        assert_eq!(zigzag32(1), 2);
+        assert_eq!(zigzag32(-2), 3);
+        assert_eq!(zigzag32(0x7fffffff), 0xfffffffe);
+        assert_eq!(zigzag32(-0x80000000), 0xffffffff);
+        assert_eq!(zigzag64(i64::MIN), u64::MAX);
+        assert_eq!(unzigzag32(zigzag32(-77) as u32), -77);
+        assert_eq!(unzigzag64(zigzag64(-77)), -77);
+        // int32 -2 is ten bytes: fe ff ff ff ff ff ff ff ff 01
+        let mut o = Out::<16>::new();
+        varint(&mut o, int32_u64(-2));
+        assert_eq!(&o.b[..o.n], &[0xfe, 0xff, 0xff, 0xff, 0xff, 0xff, 0xff, 0xff, 0xff, 0x01]);
+        let mut r = Rd::new(&[0x08, 0x96, 0x01, 0x15, 1, 0, 0, 0]);
+        assert_eq!(r.key(), Some((1, 0)));
+        assert_eq!(r.varint(), Some(150));
+        assert_eq!(r.key(), Some((2, 5)));
+        assert_eq!(r.fixed32(), Some(1));
+        assert!(r.done());
+    }
+}
